@@ -141,6 +141,9 @@ def run(ck):
                        'rx, ry never exceed half the rect size (the clamping rule of the specification is not exercised)']
     ck.tlc('SvgDoc', 'SvgDoc_MC.cfg', need_actions=['AddNode', 'StartFlat', 'PopGroup', 'Finish'])
     ck.tlc('Affine', 'Affine_MC.cfg', need_actions=['Push'])
+    # the algebra for ALL integer matrices / points (Apalache, unbounded): composition, associativity, det, evaluation commutes, area scales by det
+    ck.apalache('MC_Affine', 'Inv')
+    ck.apalache('MC_Affine', 'Wrong', expect_error=True)
     tmp = tempfile.mkdtemp(prefix='c17_')
     try:
         allk = '{"path", "line", "polyline", "polygon", "rect", "rrect", "circle", "ellipse"}'
